@@ -20,6 +20,8 @@ let () =
                 | "value" -> M_value.handle cmd args
                 | "open" -> M_open.handle cmd args
                 | "stor" -> M_storage.handle cmd args
+                | "conc" -> M_conc.handle cmd args
+                | "derive" -> M_derive.handle cmd args
                 | _ -> failwith ("unknown module " ^ m))
              | _ -> failwith "bad line"
            with
